@@ -22,6 +22,6 @@ json.dump(out, open(os.path.join(VERIF, "engine", "rules", "baseline_shapes.json
 json.dump({f["def"]: f.get("sig", "") for f in data["fns"]}, open(os.path.join(VERIF, "engine", "rules", "baseline_sigs.json"), "w"), indent=0, sort_keys=True)
 json.dump({a["def"]: [[f["name"], f["ty"].get("s")] for f in a["variants"][0]["fields"]] for a in data["adts"] if a.get("kind") == "Struct" and len(a["variants"]) == 1},
           open(os.path.join(VERIF, "engine", "rules", "baseline_adts.json"), "w"), indent=0, sort_keys=True)
-json.dump({c["def"]: [c.get("ty"), c.get("value")] for c in data["consts"]}, open(os.path.join(VERIF, "engine", "rules", "baseline_consts.json"), "w"), indent=0, sort_keys=True)
-json.dump({c["def"]: [c["ty"].get("s"), bool(c.get("mut"))] for c in data["statics"]}, open(os.path.join(VERIF, "engine", "rules", "baseline_statics.json"), "w"), indent=0, sort_keys=True)
+json.dump({c["def"]: [c.get("ty"), c.get("value"), sorted(set(b["def"] for b in data["bodies"] if json.dumps(c["def"]) in json.dumps(b)))] for c in data["consts"]}, open(os.path.join(VERIF, "engine", "rules", "baseline_consts.json"), "w"), indent=0, sort_keys=True)
+json.dump({c["def"]: [c["ty"].get("s"), bool(c.get("mut")), sorted(set(b["def"] for b in data["bodies"] if json.dumps(c["def"]) in json.dumps(b)))] for c in data["statics"]}, open(os.path.join(VERIF, "engine", "rules", "baseline_statics.json"), "w"), indent=0, sort_keys=True)
 print("fingerprinted", {k: len(v) for k, v in out.items()})
